@@ -61,7 +61,16 @@ def mk_pred_fn(toks):
     raise ValueError('bad predicate ' + ':'.join(toks))
 
 
+_SHARED = {'on': False, 'cache': {}}
+
+
 def mk_pred(s):
+    # inside one configuration the same predicate text is ONE predicate object, as in user code that defines a predicate
+    # once and uses it in several blocks / patterns / phenomena (whatever a predicate object remembers is then shared)
+    if _SHARED['on']:
+        if s not in _SHARED['cache']:
+            _SHARED['cache'][s] = BoboPredicateCall(mk_pred_fn(s.split(':')))
+        return _SHARED['cache'][s]
     return BoboPredicateCall(mk_pred_fn(s.split(':')))
 
 
@@ -87,8 +96,12 @@ def mk_pattern(spec):
 
 def mk_phenomena(phens, action=None, datagen=None):
     """phens: [(name, [pattern spec])]"""
-    return [BoboPhenomenon(name=n, patterns=[mk_pattern(p) for p in pats],
-                           action=(action(n) if action else None), datagen=datagen) for (n, pats) in phens]
+    _SHARED['on'], _SHARED['cache'] = True, {}
+    try:
+        return [BoboPhenomenon(name=n, patterns=[mk_pattern(p) for p in pats],
+                               action=(action(n) if action else None), datagen=datagen) for (n, pats) in phens]
+    finally:
+        _SHARED['on'], _SHARED['cache'] = False, {}
 
 
 def config_lines(phens, cache):
